@@ -26,6 +26,7 @@ type schemaCase struct {
 func (c schemaCase) source() string { return smodel.Render(c.Format, c.Model) }
 
 func drawSchemaCase(rt *rapid.T, cfg smodel.GenConfig, docsPerDef int) schemaCase {
+	cfg.NestedCollections = rapid.IntRange(0, 2).Draw(rt, "nestedcollections") == 0
 	m := smodel.Draw(rt, cfg)
 	c := schemaCase{Format: cfg.Format, Model: m}
 	for _, def := range m.DocDefs() {
@@ -226,4 +227,13 @@ func (p *e2Prepared) goKey(i int, def string) (string, bool) {
 		return "", false
 	}
 	return p.ids[i] + "/" + t, true
+}
+
+// nestedTag tags signatures of cases whose model holds collections directly
+// inside collections / named collections (listed findings live there).
+func nestedTag(c schemaCase) string {
+	if c.Model.HasNestedCollections() {
+		return ":nested-collections"
+	}
+	return ""
 }
